@@ -16,27 +16,27 @@ import (
 const repoModule = "github.com/fiorix/go-diameter/v4"
 
 type Engine struct {
-	repo    string
-	verif   string
-	prog    *ssa.Program
-	pkgs    []*packages.Package
-	spkgs   map[string]*ssa.Package // by import path
-	byName  map[string]*types.Package
-	specs   *Specs
-	tcache  map[string]*typeInfo
-	tags    map[string]int // dynamic type -> tag
-	tagList []string
-	tagType map[string]types.Type
-	funcs   map[string]*ssa.Function // canonical name -> function
-	strLits map[string]int
-	timeout int
-	tier    string
-	verbose bool
-	pkgRepl *strings.Replacer
+	repo            string
+	verif           string
+	prog            *ssa.Program
+	pkgs            []*packages.Package
+	spkgs           map[string]*ssa.Package // by import path
+	byName          map[string]*types.Package
+	specs           *Specs
+	tcache          map[string]*typeInfo
+	tags            map[string]int // dynamic type -> tag
+	tagList         []string
+	tagType         map[string]types.Type
+	funcs           map[string]*ssa.Function // canonical name -> function
+	strLits         map[string]int
+	timeout         int
+	tier            string
+	verbose         bool
+	pkgRepl         *strings.Replacer
 	assumptionsUsed map[string]bool
-	funcIDs map[*ssa.Function]int
-	known   []*KnownFinding
-	replayOracles map[string]string
+	funcIDs         map[*ssa.Function]int
+	known           []*KnownFinding
+	replayOracles   map[string]string
 }
 
 func (e *Engine) isRepoPkg(path string) bool {
@@ -51,7 +51,7 @@ func loadEngine(repo, verif string) (*Engine, error) {
 		Mode:       packages.LoadAllSyntax,
 		Dir:        repo,
 		BuildFlags: []string{"-tags=verif"},
-		Env: append(os.Environ(), "GOFLAGS=-mod=mod", "GOPROXY=off", "GOSUMDB=off", "GOTOOLCHAIN=local"),
+		Env:        append(os.Environ(), "GOFLAGS=-mod=mod", "GOPROXY=off", "GOSUMDB=off", "GOTOOLCHAIN=local"),
 	}
 	pats := []string{"./diam", "./diam/datatype", "./diam/dict", "./diam/avp", "./diam/sm", "./diam/sm/smparser", "./diam/sm/smpeer"}
 	if x := os.Getenv("VERIF_EXTRA_PKGS"); x != "" {
